@@ -184,6 +184,19 @@ Definition http_response (ka : N) : list op := [KeepAlive DR ka].
 Definition ws_upgrade (ka : N) : list op := if N.eqb ka 0 then [SetReadDeadline 0] else [KeepAlive DR ka].
 Definition ws_message (ka : N) : list op := if N.eqb ka 0 then [] else [KeepAlive DR ka].
 
+(* ---- the client side: nbhttp.ClientConn (also used by websocket.Dialer, whose DialTimeout is the ClientConn's Timeout) ----
+   Do: when Timeout > 0 and no other request is pending, SetReadDeadline(now + Timeout); otherwise nothing.
+   onResponse, no further request pending ("response arrived => read deadline cleared or replaced by the idle
+   timeout"): IdleConnTimeout > 0 -> SetReadDeadline(now + IdleConnTimeout), else SetReadDeadline(zero).
+   onResponse, another request pending that was sent at tnext: Timeout > 0 -> the deadline of the FIRST request stays
+   as it is (nothing is re-armed); Timeout = 0 -> SetReadDeadline(tnext + 0), a deadline that is already past. *)
+Definition client_do (timeout : N) (pending : bool) : list op :=
+  if N.eqb timeout 0 || pending then [] else [KeepAlive DR timeout].
+Definition client_response (idle : N) : list op :=
+  if N.eqb idle 0 then [SetReadDeadline 0] else [KeepAlive DR idle].
+Definition client_response_pending (timeout tnext : N) : list op :=
+  if N.eqb timeout 0 then [SetReadDeadline tnext] else [].
+
 (* ---- interface used by the extracted driver ---- *)
 Definition closed_by (s : st) : option (option dir * N) :=
   match closed s with
